@@ -79,6 +79,62 @@ mutant("halt-resume-after", ["C07"], [("cpu.go", """	case 1:
 		cpu.writeU16(cpu.SP, cpu.PC)""")], note="IM 1 accepted between CPIR repetitions resumes after the instruction")
 
 
+# ---- C08 -------------------------------------------------------------------
+mutant("bp-tested-before-step", ["C08"], [("cpu.go", """		cpu.Step()
+		if cpu.BreakPoints != nil {
+			if _, ok := cpu.BreakPoints[cpu.PC]; ok {
+				return ErrBreakPoint
+			}
+		}""", """		if cpu.BreakPoints != nil {
+			if _, ok := cpu.BreakPoints[cpu.PC]; ok {
+				return ErrBreakPoint
+			}
+		}
+		cpu.Step()""")])
+mutant("halt-test-before-bp-test", ["C08"], [("cpu.go", """		cpu.Step()
+		if cpu.BreakPoints != nil {
+			if _, ok := cpu.BreakPoints[cpu.PC]; ok {
+				return ErrBreakPoint
+			}
+		}
+		if cpu.HALT {
+			break
+		}""", """		cpu.Step()
+		if cpu.HALT {
+			break
+		}
+		if cpu.BreakPoints != nil {
+			if _, ok := cpu.BreakPoints[cpu.PC]; ok {
+				return ErrBreakPoint
+			}
+		}""")])
+mutant("run-keeps-stale-halt", ["C08"], [("cpu.go", """	cpu.HALT = false
+	for {""", """	for {""")], note="suite: testIM0 etc. call Run twice... may be caught by suite")
+mutant("run-skips-step-when-halted-on-entry", ["C08"], [("cpu.go", """	cpu.HALT = false
+	for {""", """	if cpu.HALT && cpu.Interrupt == nil {
+		return nil
+	}
+	cpu.HALT = false
+	for {""")])
+mutant("run-samples-interrupt-once", ["C08"], [("cpu.go", """	cpu.HALT = false
+	for {
+		if atomic.LoadInt32(&canceled) != 0 {
+			return ctxErr
+		}
+		cpu.Step()""", """	cpu.HALT = false
+	first := true
+	for {
+		if atomic.LoadInt32(&canceled) != 0 {
+			return ctxErr
+		}
+		if first || cpu.Interrupt == nil || cpu.Interrupt.Type == NMIType {
+			cpu.Step()
+		} else {
+			cpu.executeOne()
+		}
+		first = false""")], note="maskable requests raised by device callbacks during Run are only honoured at Run entry")
+
+
 def run(cmd, **kw):
     return subprocess.run(cmd, stdout=subprocess.PIPE, stderr=subprocess.STDOUT, text=True, **kw)
 
